@@ -13,6 +13,7 @@ import CG.Driver.HCache
 import CG.Driver.HTs
 import CG.Driver.HLag
 import CG.Driver.HNx
+import CG.Driver.HNxMin
 
 /-- stateless handlers: first token of a line selects the handler -/
 def handlers : List (String × (List String → String)) := [
@@ -31,6 +32,7 @@ def handlers : List (String × (List String → String)) := [
   ("ts", CG.Driver.TS.handle),
   ("lag", CG.Driver.Lag.handle),
   ("nx", CG.Driver.Nx.handle),
+  ("nxmin", CG.Driver.NxMin.handle),
   ("gecho", fun args => match args with
     | [t] => (match CG.Driver.GraphCodec.decGraph? t with | some g => CG.Driver.GraphCodec.encGraph g | none => "bad-op")
     | _ => "bad-op")
